@@ -179,7 +179,7 @@ def run_property(prop: str, tier: str, specs, *, level="model_checking", crash_i
                 except OSError:
                     pass
             msg = f"history {json.dumps(h['spec'])[:300]} ended with exit codes {h['codes']}: {err}"
-            if crash_is_violation:
+            if crash_is_violation and h["codes"][-1] == 3:      # an exception, not a harness timeout
                 v.violation("run_failed", msg, {"spec": h["spec"], "codes": h["codes"], "error": err})
             else:
                 v.mismatch("run did not complete: " + msg)
@@ -199,7 +199,7 @@ def run_property(prop: str, tier: str, specs, *, level="model_checking", crash_i
                     except (OSError, IndexError):
                         pass
                 msg = f"INS history {json.dumps(h['spec'])[:300]} ended with exit codes {h['codes']}: {err}"
-                if crash_is_violation:
+                if crash_is_violation and h["codes"][-1] == 3:
                     v.violation("run_failed", msg, {"spec": h["spec"], "codes": h["codes"], "error": err})
                 else:
                     v.mismatch("run did not complete: " + msg)
